@@ -382,7 +382,8 @@ def gen_items(rng, used, shape=None, free_hint=157):
             # other source of this batch
             key = rng.choice(sorted(used))
             for cand in () if not all(32 <= ord(ch) < 127 for ch in key) else (key.lower(), key, key.title(), key.swapcase()):
-                if T.catalog_name(cand) == key and T.split_source(cand)[4] not in paths and not cand.startswith("-") and len(T.split_source(cand)[1]) <= 3:
+                if (T.catalog_name(cand) == key and T.split_source(cand)[4] not in paths and not cand.startswith("-") and len(T.split_source(cand)[1]) <= 3
+                        and T.split_source(cand)[4] not in ("", ".", "..") and "/" not in cand and "\x00" not in cand):
                     name = cand
                     break
         if name is None:
